@@ -1,4 +1,5 @@
 """C14 Bundles originated at the node get distinct IDs, in the store and on the wire."""
+import os
 from props.corecommon import *
 
 
@@ -35,6 +36,34 @@ def run(tier):
         plans.append(dict(name="epoch", fam=famz, algo=a, budget=3, steps=5 if quick else 6, cap=200 if quick else 2000, mc=False))
     total, st = run_families(chk, "C14", plans, tier)
     own_violations(chk, "C14")
+    # several goroutines submit bundles of one source and instant at the same moment
+    crecf = os.path.join(scratch("rec"), "c14-conc.ndjson")
+    st5 = run_harness(chk, "concurrent submissions", "pkg/routing", FILES + ["routing/c14_concurrent.go"], "TestVerifC14Concurrent",
+                      env={"VERIF_REC": crecf, "VERIF_ROUNDS": 60 if quick else 600}, timeout=900)
+    crecs = read_ndjson(crecf)
+    if len(crecs) != st5.get("rounds") or len(crecs) < 30:
+        raise InfraError("concurrent submission recorder incomplete: %s" % st5)
+    cmod = {"IdCheck.tla": """---- MODULE IdCheck ----
+EXTENDS Integers, Sequences, FiniteSets, TLC, Json
+CONSTANT RecFile
+Recs == ndJsonDeserialize(RecFile)
+\\* the rule DistinctIds of Core.tla for one round of submissions of one source and creation time: distinct numbers, each bundle filed under its own
+IdProblems(r) ==
+  {p \\in {"same-id-assigned-twice", "bundle-not-filed-under-its-id"} :
+     CASE p = "same-id-assigned-twice" -> Cardinality({r.seqs[i] : i \\in 1..Len(r.seqs)}) # Len(r.seqs)
+       [] p = "bundle-not-filed-under-its-id" -> \\E i \\in 1..Len(r.filed) : ~r.filed[i]}
+ASSUME \\A i \\in 1..Len(Recs) : LET p == IdProblems(Recs[i]) IN p = {} \\/ PrintT(<<"BAD", ToJson([i |-> i, problems |-> p])>>)
+ASSUME PrintT(<<"CHECKED", ToJson([n |-> Len(Recs)])>>)
+VARIABLE x
+CheckSpec == x = 0 /\\ [][FALSE]_x
+====
+"""}
+    n5, bad5, results5 = check_records("IdCheck", "", crecs, name="idcheck", extra_files=cmod)
+    for r in results5:
+        chk.add_tlc("concurrent submission records", r)
+    for idx, problems in bad5:
+        for p in problems:
+            chk.violation("id/concurrent/" + p, "record judged by IdCheck (DistinctIds): " + json.dumps(crecs[idx]), crecs[idx])
     chk.cov["traces_validated_against_impl"] = total
     chk.cov["evaluations"] = total
     chk.cov["distinct_nontrivial"] = total
